@@ -18,6 +18,12 @@ UNIT = dict(
              params_c=['int circuit', 'int name', 'const vstr* user_p', '_Bool exact', '_Bool withWrite', 'struct msglist* messages_p'],
              fragment=dict(start=r'm_messages->findAll\(circuit, name,', end=r'string lastName;'),
              pre_subs=[(r'm_messages->findAll\(', 'env_findAll(', 1), (r'getUserLevels\(user\)', 'env_user_levels(user_p)', (0, 1)), (r'&messages\)', 'messages_p)', 1)]),
+        dict(file=ML_CPP, name='MainLoop::executeAuth', cname='ML_executeAuth', self=None, ret='result_t',
+             params_c=['const struct argvec* args', 'vstr* user', 'struct tokout* ostream'],
+             pre_subs=[(r'args\.size\(\)', 'args->n', 1),
+                       (r'm_userList\.checkSecret\(args\[(\d)\], args\[(\d)\]\)', lambda m: 'env_checkSecret(argvec_at(args, %s), argvec_at(args, %s))' % (m.group(1), m.group(2)), 1),
+                       (r'\*user = args\[(\d)\];', lambda m: '*user = *argvec_at(args, %s);' % m.group(1), 1)],
+             stream_out=dict(vars=['ostream'], min=2)),
     ],
     runs=[],
 )
@@ -29,3 +35,4 @@ def R(id, entry, enforce=None, replace=(), loops=False, props=('C16', 'C20'), **
     UNIT['runs'].append(d)
 
 R('data_auth', 'h_data_auth', None, unwind=6, defines=['VSTR_CAP=3'], cost=5, bounded='user name and secret up to 3 characters (only their emptiness and the verdict of checkSecret matter)')
+R('tcp_auth', 'h_tcp_auth', None, unwind=6, defines=['VSTR_CAP=3'], cost=5, bounded='user names and secrets up to 3 characters (compared by the checkSecret stub only)')
